@@ -1,7 +1,8 @@
 """C18 part (b): module trees built twice - with onnxscript.nn and with torch.nn - from one JSON spec.
 
 Tree spec (JSON):
-  {"t": "leaf", "np": 1|2, "named": bool}
+  {"t": "leaf", "np": 1|2, "named": bool, "raise": None|"pre"|"post"}   raise: forward() raises Refuse before touching its
+                                                                 parameters / after adding w; the caller catches it and goes on
   {"t": "cont", "kids": [spec...], "named": bool}                  (child attributes are "a", "b")
   {"t": "list"|"seq", "kids": [spec...], "how": HOW}               (ModuleList / Sequential)
   {"t": "ref", "to": n}                                            (the instance built for preorder node n)
@@ -21,6 +22,10 @@ import numpy as np
 ATTRS = ("a", "b")
 
 
+class Refuse(Exception):
+    """raised by a leaf's forward() (an unsupported configuration); callers fall back to the identity"""
+
+
 def number(spec, start=0):
     """Assign preorder ids in place; returns next id."""
     spec["id"] = start
@@ -38,6 +43,8 @@ def render(spec):
     if spec.get("named"):
         flags += "!"
     if t == "leaf":
+        if spec.get("raise"):
+            flags += "^" + spec["raise"]
         return f"leaf{spec['np']}{flags}#{spec['id']}"
     how = spec.get("how")
     h = f":{how}" if how and how != "ctor" else ""
@@ -70,9 +77,14 @@ class _OnnxBackend:
                 if n_params == 2:
                     self.b = nn.Parameter([3], data=ir.tensor(np.full([3], param_value(leaf_id, 1), np.float32)))
                 self.leaf_id = leaf_id
+                self.raises = None
 
             def forward(self, op, x):
+                if self.raises == "pre":
+                    raise Refuse()
                 x = op.Add(x, self.w)
+                if self.raises == "post":
+                    raise Refuse()
                 if hasattr(self, "b"):
                     x = op.Add(x, self.b)
                 return x
@@ -100,7 +112,10 @@ class _OnnxBackend:
             for m in child:
                 x = self.call_child(op, m, x)
             return x
-        return child(op, x)
+        try:
+            return child(op, x)
+        except Refuse:
+            return x          # fall back to the identity and keep building on the same GraphBuilder
 
 
 class _TorchBackend:
@@ -109,6 +124,7 @@ class _TorchBackend:
     def __init__(self):
         import torch
         self.torch = torch
+        self.entered = set()      # leaf ids whose forward() was entered during the last run (reset by the caller)
         tnn = torch.nn
         self.nn = tnn
         backend = self
@@ -120,9 +136,15 @@ class _TorchBackend:
                 if n_params == 2:
                     self.b = tnn.Parameter(torch.full([3], param_value(leaf_id, 1), dtype=torch.float32))
                 self.leaf_id = leaf_id
+                self.raises = None
 
             def forward(self, x):
+                backend.entered.add(self.leaf_id)
+                if self.raises == "pre":
+                    raise Refuse()
                 x = x + self.w
+                if self.raises == "post":
+                    raise Refuse()
                 if hasattr(self, "b"):
                     x = x + self.b
                 return x
@@ -150,7 +172,10 @@ class _TorchBackend:
             for m in child:
                 x = self.call_child(op, m, x)
             return x
-        return child(x)
+        try:
+            return child(x)
+        except Refuse:
+            return x
 
 
 def build(backend, spec, root_name):
@@ -167,6 +192,7 @@ def build(backend, spec, root_name):
             return inst[s["to"]]
         if t == "leaf":
             m = backend.Leaf(s["id"], s["np"], name=own_name(s, key))
+            m.raises = s.get("raise")
         elif t == "cont":
             m = backend.Cont(name=own_name(s, key))
             for a, k in zip(ATTRS, s["kids"]):
@@ -222,6 +248,7 @@ def build(backend, spec, root_name):
     t = spec["t"]
     if t == "leaf":
         root = backend.Leaf(spec["id"], spec["np"], name=root_name)
+        root.raises = None    # a raising root has no caller inside the tree
         inst[spec["id"]] = root
     elif t == "cont":
         root = backend.Cont(name=root_name)
